@@ -401,3 +401,35 @@ Proof.
     repeat split; try lia;
     try (apply N.eqb_eq; lia); try (apply N.eqb_neq; lia).
 Qed.
+
+(* ---------- the other checked constructors and the wrappers h3 itself calls ---------- *)
+
+Theorem vi_try_from_u64_spec x : vi_try_from_u64 x = if x <? 2 ^ 62 then Some x else None.
+Proof. reflexivity. Qed.
+
+Theorem vi_try_from_usize_spec x : vi_try_from_usize x = if x <? 2 ^ 62 then Some x else None.
+Proof. reflexivity. Qed.
+
+Theorem push_id_try_from_spec x : push_id_try_from x = if x <? 2 ^ 62 then Some x else None.
+Proof. reflexivity. Qed.
+
+Theorem vi_write_var_spec x :
+  vi_write_var x = if x <? 2 ^ 62 then Some (rfc_vi_enc (rfc_vi_shortest x) x) else None.
+Proof.
+  unfold vi_write_var, write_var_is_checked_encode. rewrite vi_from_u64_spec.
+  destruct (N.ltb_spec x (2 ^ 62)) as [H|H]; [|reflexivity].
+  apply vi_encode_shortest. exact H.
+Qed.
+
+Theorem vi_get_var_is_decode bs : vi_get_var bs = vi_decode bs.
+Proof. reflexivity. Qed.
+
+Theorem vi_write_get_roundtrip :
+  forall x r, x < 2 ^ 62 -> wf_bytes r ->
+    exists e, vi_write_var x = Some e /\ vi_get_var (e ++ r) = (Ok x, r).
+Proof.
+  intros x r Hx Hr. destruct (vi_roundtrip x r Hx Hr) as (e & He & _ & Hd).
+  exists e. split; [|rewrite vi_get_var_is_decode; exact Hd].
+  rewrite vi_write_var_spec. destruct (N.ltb_spec x (2 ^ 62)); [|lia].
+  rewrite vi_encode_shortest in He by assumption. exact He.
+Qed.
